@@ -79,6 +79,9 @@ def run(ctx):
     d = data['d']
     initk = ['identity', 'covariance', 'random', 'array'][i // 2 % 4]
     diagonal = (i % 7 == 6)
+    units = [1.0, 2.0 ** -10, 1.0, 2.0 ** -14, 2.0 ** 8][i % 5]     # the 1% budget test is relative: it does not depend on the unit
+    data = dict(data, X=data['X'] * units)
+    ctx.hist('units.log2', int(np.log2(units)))
     kw = dict(max_iter=int(rng.choice([1, 3, 10, 40])), max_proj=20000, tol=float(rng.choice([1e-3, 1e-6])),
               init=initk if initk != 'array' else fits.spd_array(rng, d), random_state=int(rng.integers(0, 100)),
               diagonal=diagonal, diagonal_c=float(rng.choice([0.1, 1.0, 10.0])))
